@@ -94,7 +94,39 @@ fn simnet_run() -> Result<String, String> {
     ))
 }
 
+fn simnet_debug() {
+    use crate::env::{node::Monitor, simnet::{NodeCmd, World}};
+    use litep2p::config::ConfigBuilder;
+    let rt = driver::runtime(3);
+    let _g = rt.enter();
+    let mut w = World::new();
+    let mk = |w: &mut World, seed| {
+        let (m0, h0) = Monitor::new("/verif/x/1");
+        let (m1, h1) = Monitor::new("/verif/y/1");
+        let n = w.add_node(seed, ConfigBuilder::new().with_user_protocol(m0).with_user_protocol(m1).with_keep_alive_timeout(Duration::from_secs(4))).unwrap();
+        (n, h0, h1)
+    };
+    let (a, ax, _ay) = mk(&mut w, 31);
+    let (b, bx, _by) = mk(&mut w, 32);
+    let (pb, addr_b) = (w.nodes[b].peer, w.nodes[b].address.clone());
+    w.nodes[a].cmd.send(NodeCmd::AddKnown(pb, addr_b)).unwrap();
+    w.run_to_quiescence(1000);
+    w.nodes[a].cmd.send(NodeCmd::Dial(pb)).unwrap();
+    for i in 0..200 {
+        w.pump_net();
+        let en = w.driver.enabled_fifo();
+        if en.is_empty() { break; }
+        let name = w.driver.name(en[0]).to_string();
+        w.driver.step(en[0]);
+        println!("step {i}: {name} done={} | A.app={} B.app={} A.x={:?} B.x={:?} calls A={:?} B={:?}", w.driver.is_done(en[0]), w.nodes[a].log.lock().len(), w.nodes[b].log.lock().len(), ax.log.lock().len(), bx.log.lock().len(), w.nodes[a].script.0.lock().calls.last(), w.nodes[b].script.0.lock().calls.last());
+    }
+}
+
 pub fn run() -> i32 {
+    if std::env::var_os("VERIF_DEBUG_SIMNET").is_some() {
+        simnet_debug();
+        return 0;
+    }
     let a = simnet_run();
     let b = simnet_run();
     match (&a, &b) {
